@@ -24,6 +24,80 @@ def strip_push0(text):
     return " ".join("PUSH 0" if t == "PUSH0" else t for t in (text or "").split(" "))
 
 
+def render_plain(block, rnd, style):
+    """text of a block for -bl input; style 0 = canonical (minimal hex, PUSH0 for zero), otherwise random spellings"""
+    toks = []
+    for n, v in block:
+        if n == "PUSH":
+            c = int(v, 16)
+            w = max(1, (c.bit_length() + 7) // 8)
+            if style == 0:
+                toks.append("PUSH0" if c == 0 else "PUSH%d 0x%x" % (w, c))
+            elif c == 0:
+                toks.append(rnd.choice(["PUSH0", "PUSH1 0x00", "PUSH1 0x0", "PUSH1 0", "PUSH1 0x00", "PUSH2 0x0000"]))
+            else:
+                k = rnd.random()
+                toks.append("PUSH%d 0x%0*x" % (w, 2 * w, c) if k < 0.4 else "PUSH%d %d" % (w, c) if k < 0.7 else
+                            "PUSH%d 0x%0*x" % (min(32, w + 1), 2 * min(32, w + 1), c))
+        else:
+            toks.append(n)
+    return " ".join(toks)
+
+
+def spelling_invariance(r, rnd, counts, n_files):
+    files = []
+    for _ in range(n_files):
+        blocks = []
+        while len(blocks) < 6:
+            b, k = gen.gen_block(rnd, rnd.choice(["zero", "zero", "tradeoff", "rule", "short"]))
+            if all(v is None or n == "PUSH" for n, v in b) and all(n in evm.ARITY and n not in evm.PSEUDO_PUSH for n, v in b):
+                blocks.append(b + [("STOP", None)])
+        variants = ["\n".join(render_plain(b, rnd, st) for b in blocks) + "\n" for st in (0, 1, 2)]
+        files.append(variants)
+    jobs = []
+    for fi, variants in enumerate(files):
+        for o in (["-bl", "-greedy"], ["-bl", "-greedy", "-push0"]):
+            for vi, text in enumerate(variants):
+                jobs.append((text, o, fi, vi))
+    results = cli_props.parallel(jobs, lambda t, o, fi, vi: clirun.run_cli(t, o, stem="blocks", suffix=".txt", timeout=600))
+    counts["spelling_runs"] = len(jobs)
+    counts["spelling_groups_compared"] = 0
+    counts["spelling_groups_with_zero_push_variants"] = 0
+    groups = {}
+    for (text, o, fi, vi), res in zip(jobs, results):
+        groups.setdefault((fi, tuple(o)), []).append((vi, text, res))
+    for (fi, o), members in sorted(groups.items()):
+        label = "plain-text file %d" % fi
+        if any([clirun.watchdog(res, r, label) for _, _, res in members]):
+            continue
+        figs = []
+        for vi, text, res in members:
+            if res.rc != 0 or res.totals() is None:
+                r.witness("CLI run on plain-text input failed (rc=%s)" % res.rc, {"doc": label, "opts": list(o), "text": text[:400],
+                                                                                  "stderr": res.stderr_tail[-400:]})
+                figs = None
+                break
+            rows = cli_props.read_csv(res.text_file("_statistics_seq.csv"))
+            keep = [k for k in (rows[0].keys() if rows else []) if any(x in k for x in ("estimated", "saved", "length", "n_instrs"))]
+            figs.append((res.totals(), [[row["block_id"]] + [row[k] for k in keep] for row in rows]))
+        if not figs:
+            continue
+        counts["spelling_groups_compared"] += 1
+        if any(t.count("PUSH1 0x00") + t.count("PUSH2 0x0000") + t.count("PUSH1 0x0 ") for _, t, _ in members):
+            counts["spelling_groups_with_zero_push_variants"] += 1
+        for (vi, text, res), f in zip(members[1:], figs[1:]):
+            if f[0] != figs[0][0]:
+                r.witness("printed totals depend on how a constant is written in the plain-text input",
+                          {"doc": label, "opts": list(o), "canonical": members[0][1][:300], "variant": text[:300],
+                           "totals": [figs[0][0], f[0]]})
+                break
+            if f[1] != figs[0][1]:
+                diff = next((a, b) for a, b in zip(figs[0][1], f[1]) if a != b) if len(f[1]) == len(figs[0][1]) else None
+                r.witness("statistics rows depend on how a constant is written in the plain-text input",
+                          {"doc": label, "opts": list(o), "canonical": members[0][1][:300], "variant": text[:300], "rows": diff})
+                break
+
+
 def run():
     from vlib import findings
     from monitors import common
@@ -130,8 +204,11 @@ def run():
             r.witness("printed totals with -c do not cover exactly the selected contract",
                       {"doc": label, "printed": tot, "recomputed": mine})
     counts["selection_streams_checked"] = c9.get("streams", 0)
+    # (d) plain-text input: the way a constant is written (PUSH0 / PUSH1 0x00 / PUSH1 0 / PUSH2 0x0000, padded or
+    #     minimal hex, decimal) must not change any figure of the run, under either setting
+    spelling_invariance(r, rnd, counts, 6 if quick else 40)
     for need in ("zero_push_rows", "emitted_zero_pushes_enabled", "emitted_zero_pushes_disabled", "selection_runs",
-                 "totals_reconciled"):
+                 "totals_reconciled", "spelling_groups_compared", "spelling_groups_with_zero_push_variants"):
         if counts.get(need, 0) == 0:
             r.inconclusive.append("!never reached: " + need)
     r.coverage.update(counts)
